@@ -673,6 +673,39 @@ class DataMixin:
     def cm_HSymDict_items(self, d):
         return VIterView('items', d)
 
+    def cm_HSymDict_copy(self, d):
+        return self.ex.alloc(self.ex.heap[d.addr].clone())
+
+    def cm_HSymDict_update(self, d, other=None, **kw):
+        """d.update(other): pointwise - keys of other win (T1)"""
+        ex = self.ex
+        h = ex.heap[d.addr]
+        if 'extra' in h.__dict__ and h.__dict__['extra']:
+            raise Undecided('update of a symbolic dict with sum bookkeeping')
+        if other is not None:
+            o = other
+            if isinstance(o, VRef) and isinstance(ex.heap[o.addr], HObj) and '__dictdata__' in ex.heap[o.addr].attrs:
+                o = ex.heap[o.addr].attrs['__dictdata__']
+            if isinstance(o, VRef) and isinstance(ex.heap[o.addr], HSymDict):
+                oh = ex.heap[o.addr]
+                k = z3.Const('__uk__', Val)
+                h.map = z3.Lambda([k], z3.If(z3.Select(oh.dom, k), z3.Select(oh.map, k), z3.Select(h.map, k)))
+                h.dom = z3.SetUnion(h.dom, oh.dom)
+            elif isinstance(o, VRef) and isinstance(ex.heap[o.addr], HDict):
+                for kk, vv in ex.heap[o.addr].items.items():
+                    if isinstance(kk, tuple):
+                        raise Undecided('update from a dict with an opaque spread')
+                    kt = lower(VStr(kk) if isinstance(kk, str) else VInt(kk), ex)
+                    h.map = z3.Store(h.map, kt, lower(vv, ex))
+                    h.dom = z3.Store(h.dom, kt, z3.BoolVal(True))
+            else:
+                raise Undecided(f'symbolic dict.update({other!r})')
+        for kk, vv in kw.items():
+            kt = lower(VStr(kk), ex)
+            h.map = z3.Store(h.map, kt, lower(vv, ex))
+            h.dom = z3.Store(h.dom, kt, z3.BoolVal(True))
+        return NONE
+
     def cm_HSymDict_clear(self, d):
         h = self.ex.heap[d.addr]
         h.dom = EMPTYSET
